@@ -16,7 +16,9 @@ type G struct {
 
 func (g *G) Pick(n int, l string) int { return rapid.IntRange(0, n-1).Draw(g.T, l) }
 
-var commentBodies = []string{"", " c ", "x", " ; ", " { ", " } ", " \"q\" ", " 'q' ", " + ", "é", " a;b{c}d ", " * / ", "/", " leaf x; "}
+var commentBodies = []string{"", " c ", "x", " ; ", " { ", " } ", " \"q\" ", " 'q' ", " + ", "é", " a;b{c}d ", " * / ", "/", " leaf x; ",
+	// a carriage return that no line feed follows is a character of the comment like any other
+	" old\rleaf hidden { type string; } ", "\r", " a\rb "}
 
 // Trivia draws a run of blanks, line breaks and comments.  needBlankFirst:
 // the previous token is unquoted, so a comment must not follow it directly.
